@@ -59,6 +59,10 @@ CHECKS = {
   "AllocConc_L1 breaks Entities::create / delete into the code's atomic steps (load, compare-exchange with retry and spurious failure, raised.add_atomic, generation read, is_alive / killed.add_atomic) and TLC enumerates every sequentially consistent interleaving of several small thread programs, checking distinct handles, own handle alive on return, faithful deletion results and alive = initial + created - requested after the merge. The thread-id sequence of every explored transition (plus random ones) is replayed on real threads by a cooperative scheduler through add-only yield-point hooks; free-running stress runs on 2..32 threads (with joins and lazy queuing) add sampled schedules; TLC validates every logged run against Conc_L0.",
   "weak-memory reorderings are only sampled by the free-running runs (the property says so); AtomicBitSet::add_atomic and crossbeam's SegQueue are treated as atomic",
   "TLA+ model checking (TLC) of interleavings + schedule replay on real threads + trace validation against Conc_L0"),
+ "C11": ("model_checking", "4 (C11)",
+  "For every storage handle type the harness extracts from the real code what it declares (reads()/writes()) and what fetch() really borrows (probing every resource with fetch / fetch_mut while the handle is held); the table must satisfy declared = borrowed. Dispatch.tla guards Enter by the declared sets and states the invariants on the actual borrows; TLC checks all graphs of <= 3 systems over the shape menu and all schedules. Random graphs of instrumented systems (16 SystemData shapes over 5 storages incl. zero-sized and flagged ones, Entities, Write<EntitiesRes>, LazyUpdate; dependencies, barriers) run on the real dispatcher with pools of 1..64 threads; TLC validates every logged dispatch (each system once per round, no writer overlapping another user, dependencies and barriers respected, no borrow panic).",
+  "the staging algorithm is shred's and is only validated on observed schedules; overlaps at the very edge of a borrow interval can be missed",
+  "TLA+ model checking (TLC) + extraction of declared/borrowed sets from the real code + trace validation of real dispatches"),
 }
 
 NOT_YET = {
